@@ -279,6 +279,32 @@ fn main() {
                 })
                 .collect(),
         );
+        // arguments that differ from thread to thread (and from round to round) for builtins whose results are worth
+        // remembering: text conversions of non-ASCII strings, powers with fractional exponents, renderings of tuples of
+        // 64 and more elements. Expected results: the same expressions evaluated here, one after the other.
+        let per_thread: Arc<Vec<Vec<(String, String)>>> = Arc::new(
+            (0..threads)
+                .map(|tid| {
+                    let mut v = vec![
+                        format!("str::to_uppercase(\"é{}ß{}\") + str::to_lowercase(\"À{}Ñ\")", tid, round, tid),
+                        format!("str::from(({}))", (0..(64 + tid)).map(|i| (i * (tid + 1)).to_string()).collect::<Vec<_>>().join(", ")),
+                        format!("len(str::trim(\"  é{}  \")) + max({}, 2.5, {})", tid, tid, round),
+                        format!("str::to_lowercase(\"ǅ{}İ\") + str::from((\"ß{}\", {}.5))", round, tid, tid),
+                    ];
+                    if !cfg!(miri) {
+                        // (inexact float intrinsics: Miri perturbs them on purpose)
+                        v.push(format!("{}.5 ^ 1.5 + math::pow({}.25, 0.75)", tid + 1, round % 50 + 1));
+                        v.push(format!("math::hypot({}.5, 2) + math::ln({}.125)", tid, round % 90 + 1));
+                    }
+                    v.into_iter()
+                        .map(|src| {
+                            let want = format!("{:?}", evalexpr::eval_with_context(&src, &*persistent));
+                            (src, want)
+                        })
+                        .collect()
+                })
+                .collect(),
+        );
         let barrier = Arc::new(Barrier::new(threads));
         let expected = Arc::new(expected.clone());
         let hot = srcs.iter().position(|s| s.starts_with("(1, 2, 3")).expect("the literal lookup table is one of the sources");
@@ -304,6 +330,7 @@ fn main() {
             let persistent = persistent.clone();
             let fresh_tree = fresh_tree.clone();
             let fresh_name = fresh_name.clone();
+            let per_thread = per_thread.clone();
             handles.push(std::thread::spawn(move || {
                 THREAD_ID.with(|t| t.set(tid + 1));
                 let mut r = Rng(seed ^ (round << 20) ^ ((tid as u64) << 40));
@@ -344,6 +371,18 @@ fn main() {
                         mismatches.fetch_add(1, Ordering::Relaxed);
                         out.push(format!("MISMATCH thread {} round {} tree {} on the long-lived context: expected {} got {}", tid, round, ti, expected[ti][0], got));
                         break;
+                    }
+                }
+                // builtins on arguments that are this thread's own, while the other threads use theirs
+                for _ in 0..(if cfg!(miri) { 1 } else { 4 }) {
+                    for (src, want) in per_thread[tid].iter() {
+                        let got = format!("{:?}", evalexpr::eval_with_context(src, &*persistent));
+                        total.fetch_add(1, Ordering::Relaxed);
+                        if got != *want {
+                            mismatches.fetch_add(1, Ordering::Relaxed);
+                            out.push(format!("MISMATCH thread {} round {} `{}` (arguments of this thread's own) on the long-lived context: expected {} got {}", tid, round, &src[..src.len().min(80)], want, got));
+                            break;
+                        }
                     }
                 }
                 // large-argument builtins: every fourth round, one expression per thread, on the long-lived shared context and
